@@ -66,11 +66,11 @@ type Sym struct {
 	RetryAfter string // header value, "" = header absent
 	NetErr     int    // 1 temporary network error, 2 permanent network error
 	// gRPC
-	Code      uint32
-	RetryInfo bool          // status carries a RetryInfo detail ...
-	DetailFirst bool // gRPC: an unrelated error detail precedes the RetryInfo in the status
-	NilDelay    bool // gRPC: RetryInfo without a RetryDelay (a zero delay)
-	Delay     time.Duration // ... with this RetryDelay (a Hint only where the statement allows a retry)
+	Code        uint32
+	RetryInfo   bool          // status carries a RetryInfo detail ...
+	DetailFirst bool          // gRPC: an unrelated error detail precedes the RetryInfo in the status
+	NilDelay    bool          // gRPC: RetryInfo without a RetryDelay (a zero delay)
+	Delay       time.Duration // ... with this RetryDelay (a Hint only where the statement allows a retry)
 	// partial success content
 	Rejected int64
 	Message  string
